@@ -75,8 +75,14 @@ class Contract(object):
         ga = {}
         for text, names in dict(getattr(self.cls, "ghost_asserts", {})).items():
             names = names if isinstance(names, (list, tuple)) else [names]
-            ga[" ".join(text.split())] = [fns[n] for n in names]
+            ga[norm_stmt(text)] = [fns[n] for n in names]
         self.ghost_asserts = ga
+        gu = {}
+        for text, names in dict(getattr(self.cls, "ghost_updates", {})).items():
+            names = names if isinstance(names, (list, tuple)) else [names]
+            gu[norm_stmt(text)] = [fns[n] for n in names]
+        self.ghost_updates = gu
+        self.ghost_vars = dict(getattr(self.cls, "ghost_vars", {}))
         for k, u in self.loop_unroll.items():
             self.loops.setdefault(k, LoopSpec()).unroll = u
         return self
@@ -84,6 +90,15 @@ class Contract(object):
     # native evaluation ------------------------------------------------------
     def native_fn(self, name):
         return self.cls.__dict__[name]
+
+
+def norm_stmt(text):
+    """canonical text of a statement (comments and layout removed) used to anchor ghost code"""
+    import textwrap
+    try:
+        return ast.unparse(ast.parse(textwrap.dedent(text)).body[0])
+    except SyntaxError:
+        return " ".join(text.split())
 
 
 _spec_infos = {}
